@@ -22,7 +22,8 @@ RULE = ("EXHAUSTIVE: every string of length <= 4 over {quote, slash, space, a} a
         "found under its own names, report name / group_name / path unchanged, carry its own data, and be listed once. "
         "Non-trivial: a name containing a quote or slash or being empty."
         ' A further writer mode writes the same channels three times, the last time in the opposite order with other '
-        'lengths; every file is also opened lazily and each channel read from every start offset.')
+        'lengths; every file is also opened lazily and each channel read from every start offset.'
+        ' Whole-file chunk streams of the lazily opened file are addressed by the same names.')
 ASSUMPTIONS = [
     "TDMS path syntax: /'group'/'channel' with single quotes doubled inside names (vf/model.py make_path)",
     "surrogate code points are excluded (not encodable as UTF-8)",
